@@ -609,6 +609,7 @@ func (f *Frame) copyRange(st *State, dBase, dOff, sBase, sOff, n Term, et types.
 	// symbolic length: the destination array is replaced by an array constrained
 	// by a quantified axiom over the index alone
 	c.usesQuant = true
+	c.needQuantHeap = true // the copy axiom below must reach the solver
 	for _, lm := range c.elemMems(et) {
 		en := "E" + lm.name[1:]
 		e := c.elemGet(st, en, lm.sort)
@@ -617,7 +618,7 @@ func (f *Frame) copyRange(st *State, dBase, dOff, sBase, sOff, n Term, et types.
 		i := raw("i", c.idxSort)
 		inWin := And(c.idxLe(dOff, i), c.idxLt(i, c.idxAdd(dOff, n)))
 		src := Select(Select(e, sBase), c.idxAdd(sOff, c.idxSub(i, dOff)))
-		c.assumes = append(c.assumes, Assume{declPos: len(c.decls), heapAx: true, why: "copy of a symbolic range",
+		c.assumes = append(c.assumes, Assume{declPos: len(c.decls), frameAx: true, why: "copy of a symbolic range",
 			t: raw(fmt.Sprintf("(forall ((i %s)) (! (= (select %s i) (ite %s %s (select (select %s %s) i))) :pattern ((select %s i))))",
 				c.idxSort, na.S, inWin.S, src.S, e.S, dBase.S, na.S), SBool)})
 		c.copyRecs[na.S] = copyRec{e: e, dBase: dBase, dOff: dOff, n: n, sBase: sBase, sOff: sOff}
